@@ -23,6 +23,16 @@ int main(void)
 			if (rc == 0) { printf("ok "); drv_puthex(out, len); printf("\n"); }
 			else printf("ok none\n");
 			free(s); free(out);
+		} else if (n == 3 && strcmp(tok[0], "unhexraw") == 0) {
+			/* the input in a block of exactly its size, WITHOUT a terminator: unhexify's
+			 * contract is "2*len characters from in", so it may not look beyond them */
+			size_t slen; uint8_t * s = drv_unhex(tok[1], &slen, 0);
+			size_t len = (size_t)strtoull(tok[2], NULL, 10);
+			uint8_t * out = malloc(len ? len : 1);
+			int rc = unhexify((char *)s, out, len);
+			if (rc == 0) { printf("ok "); drv_puthex(out, len); printf("\n"); }
+			else printf("ok none\n");
+			free(s); free(out);
 		} else
 			printf("bad-case\n");
 	}
